@@ -1,206 +1,547 @@
 //! Witness search for C04 / C03: the REAL deduplication::Chunker against an independent reference implementation of the gear-hash
 //! rule (first cut: length == max, or length > min-65 and the gear hash of the bytes from offset max(min-65,0) meets the mask), on
-//! structured streams and call partitions, under the default limits and under (MINIMUM_CHUNK_DIVISOR, MAXIMUM_CHUNK_MULTIPLIER) =
-//! (6, 3), (3, 5), (16, 2) - one re-executed process per configuration, HF_XET_* overrides (honoured in builds with debug assertions).
+//! structured streams and call partitions, under the default limits and under several (MINIMUM_CHUNK_DIVISOR,
+//! MAXIMUM_CHUNK_MULTIPLIER[, TARGET_CHUNK_SIZE]) settings - one re-executed process per configuration, HF_XET_* overrides (honoured
+//! in builds with debug assertions).  Checked: chunk lengths == reference, chunk bytes concatenate to the input, every chunk's hash
+//! == compute_data_hash(its bytes), size bounds, the contract of next() (consumed <= given; everything consumed when no chunk comes
+//! back; (None, 0) on empty non-final input), flushing through is_final / finish(), reuse after a final call, Chunker::default().
 //! Prints `WITNESS ...` and exits 1 on the first disagreement.
 use deduplication::Chunker;
+use merklehash::{compute_data_hash, MerkleHash};
 use rand::rngs::StdRng;
 use rand::{Rng, SeedableRng};
 
-fn reference(data: &[u8], target: usize, div: usize, mult: usize) -> Vec<usize> {
+/// position (1-based length) of the first cut in `data` read from a clean state, and whether the hash (not the size limit) made it
+fn first_cut(data: &[u8], target: usize, div: usize, mult: usize) -> Option<(usize, bool)> {
     let mask0 = (target - 1) as u64;
     let mask = mask0 << mask0.leading_zeros();
     let mn = target / div;
     let mx = target * mult;
     let skip = if mn >= 65 { mn - 65 } else { 0 };
+    let mut h: u64 = 0;
+    for (i, &b) in data.iter().enumerate() {
+        let len = i + 1;
+        if len > skip {
+            h = (h << 1).wrapping_add(gearhash::DEFAULT_TABLE[b as usize]);
+            if h & mask == 0 {
+                return Some((len, true));
+            }
+        }
+        if len == mx {
+            return Some((len, false));
+        }
+    }
+    None
+}
+
+fn reference(data: &[u8], target: usize, div: usize, mult: usize) -> Vec<usize> {
     let mut out = vec![];
     let mut start = 0usize;
     while start < data.len() {
-        let mut h: u64 = 0;
-        let mut len = 0usize;
-        let mut cut = None;
-        while start + len < data.len() {
-            let b = data[start + len];
-            len += 1;
-            if len > skip {
-                h = (h << 1).wrapping_add(gearhash::DEFAULT_TABLE[b as usize]);
-                if h & mask == 0 {
-                    cut = Some(len);
-                    break;
-                }
-            }
-            if len == mx {
-                cut = Some(len);
-                break;
-            }
-        }
-        let l = cut.unwrap_or(len);
+        let l = first_cut(&data[start..], target, div, mult).map(|c| c.0).unwrap_or(data.len() - start);
         out.push(l);
         start += l;
     }
     out
 }
 
-/// mode 0: every call non-final, then finish(); mode 1: the last call carries is_final=true (no finish());
-/// mode 2: as mode 1, then the same chunker is fed the stream a second time (it must start clean).
-fn real(data: &[u8], target: usize, pieces: &[usize], mode: u8) -> Vec<usize> {
-    let mut c = Chunker::new(target);
+fn witness(msg: String) -> ! {
+    println!("WITNESS {msg}");
+    std::process::exit(1);
+}
+
+const MODES: &str = "0 = next_block + finish(); 1 = last next_block call is_final; 2 = as 1, then the same chunker is fed the stream again; 3 = next() called directly (with interleaved empty calls) + finish(); 4 = next_block, then next_block(&[], true), next(&[], true) twice, then the stream again";
+
+/// Runs the real chunker over `data` cut into `pieces` (cycled) in the given mode; returns (length, hash) per chunk.
+fn real(ctx: &str, data: &[u8], target: Option<usize>, pieces: &[usize], mode: u8) -> Vec<(usize, MerkleHash)> {
+    let mut c = match target {
+        Some(t) => Chunker::new(t),
+        None => Chunker::default(),
+    };
     let mut out = vec![];
-    let mut cat: Vec<u8> = vec![];
-    let rounds = if mode == 2 { 2 } else { 1 };
-    for _round in 0..rounds {
+    let mut cat: Vec<u8> = Vec::with_capacity(data.len() * 2);
+    let mut take = |ch: deduplication::Chunk, out: &mut Vec<(usize, MerkleHash)>| {
+        out.push((ch.data.len(), ch.hash));
+        cat.extend_from_slice(&ch.data);
+    };
+    let describe = |what: String| -> ! {
+        witness(format!("{ctx} fed {} bytes in pieces {:?} (cycled), mode {mode} ({MODES}): {what}", data.len(), &pieces[..pieces.len().min(12)]))
+    };
+    let rounds = if mode == 2 || mode == 4 { 2 } else { 1 };
+    for round in 0..rounds {
+        let last_is_final = mode == 1 || mode == 2 || (mode == 4 && round == 1);
         let mut pos = 0;
         let mut k = 0;
         while pos < data.len() {
             let n = pieces[k % pieces.len()].max(1).min(data.len() - pos);
             k += 1;
             let last = pos + n == data.len();
-            for ch in c.next_block(&data[pos..pos + n], mode != 0 && last) {
-                out.push(ch.data.len());
-                cat.extend_from_slice(&ch.data);
+            if mode == 3 {
+                let mut p = pos;
+                while p < pos + n {
+                    let (ch, used) = c.next(&data[p..pos + n], false);
+                    if used > pos + n - p || (ch.is_none() && used != pos + n - p) {
+                        describe(format!("next() on {} bytes at stream offset {p} returned {} and says it consumed {used} bytes", pos + n - p, if ch.is_some() { "a chunk" } else { "no chunk" }));
+                    }
+                    if let Some(ch) = ch {
+                        take(ch, &mut out);
+                    }
+                    p += used;
+                }
+                if k % 5 == 0 {
+                    let (ch, used) = c.next(&[], false);
+                    if ch.is_some() || used != 0 {
+                        describe(format!("next(&[], false) at stream offset {} returned {} / consumed {used}", pos + n, if ch.is_some() { "a chunk" } else { "no chunk" }));
+                    }
+                }
+            } else {
+                for ch in c.next_block(&data[pos..pos + n], last_is_final && last) {
+                    take(ch, &mut out);
+                }
             }
             pos += n;
         }
-        if data.is_empty() && mode != 0 {
+        if data.is_empty() && last_is_final {
             for ch in c.next_block(&[], true) {
-                out.push(ch.data.len());
-                cat.extend_from_slice(&ch.data);
+                take(ch, &mut out);
+            }
+        }
+        if mode == 4 && round == 0 {
+            // a final call without data: whatever next_block does with it, next(&[], true) must hand out what is left, once
+            for ch in c.next_block(&[], true) {
+                take(ch, &mut out);
+            }
+            let (ch, used) = c.next(&[], true);
+            if used != 0 {
+                describe(format!("next(&[], true) says it consumed {used} bytes"));
+            }
+            if let Some(ch) = ch {
+                take(ch, &mut out);
+            }
+            let (ch, used) = c.next(&[], true);
+            if ch.is_some() || used != 0 {
+                describe(format!("a second next(&[], true) returned {} / consumed {used}", if ch.is_some() { "another chunk" } else { "no chunk" }));
             }
         }
     }
-    if mode == 0 {
+    if mode == 0 || mode == 3 {
         if let Some(ch) = c.finish() {
-            out.push(ch.data.len());
-            cat.extend_from_slice(&ch.data);
+            take(ch, &mut out);
         }
+    } else if let Some(ch) = c.finish() {
+        describe(format!("finish() after a final call returned another chunk of {} bytes", ch.data.len()));
     }
-    let mut want_cat = data.to_vec();
-    if mode == 2 {
-        want_cat.extend_from_slice(data);
-    }
-    if cat != want_cat {
-        println!(
-            "WITNESS Chunker(target={target}) fed {} bytes in pieces {:?} (mode {mode}: 0=finish(), 1=last call is_final, 2=reused after a final call): the chunks concatenate to {} bytes, not to the {} bytes fed{}",
-            data.len(), pieces, cat.len(), want_cat.len(),
-            if cat.len() == want_cat.len() { " (same length, different bytes)" } else { "" }
-        );
-        std::process::exit(1);
+    let same = if rounds == 2 { cat.len() == 2 * data.len() && cat[..data.len()] == *data && cat[data.len()..] == *data } else { cat[..] == *data };
+    if !same {
+        describe(format!("the chunks concatenate to {} bytes, not to the {} bytes fed{}", cat.len(), rounds * data.len(), if cat.len() == rounds * data.len() { " (same length, different bytes)" } else { "" }));
     }
     out
 }
 
-/// (MINIMUM_CHUNK_DIVISOR, MAXIMUM_CHUNK_MULTIPLIER) configurations; the constants are read once per process (and are overridable
-/// through HF_XET_* in builds with debug assertions, as the replay crate's is), so the program re-executes itself per configuration.
-const CONFIGS: [Option<(usize, usize)>; 4] = [None, Some((6, 3)), Some((3, 5)), Some((16, 2))];
+struct Cfg {
+    div: usize,
+    mult: usize,
+    target: Option<usize>, // HF_XET_TARGET_CHUNK_SIZE (what Chunker::default() uses)
+}
+/// (MINIMUM_CHUNK_DIVISOR, MAXIMUM_CHUNK_MULTIPLIER, TARGET_CHUNK_SIZE) configurations; the constants are read once per process (and
+/// are overridable through HF_XET_* in builds with debug assertions, as the replay crate's is), so the program re-executes itself.
+const CONFIGS: [Option<Cfg>; 8] = [
+    None,
+    Some(Cfg { div: 6, mult: 3, target: Some(4096) }),
+    Some(Cfg { div: 3, mult: 5, target: None }),
+    Some(Cfg { div: 16, mult: 2, target: Some(1 << 17) }),
+    Some(Cfg { div: 1, mult: 2, target: Some(1024) }),    // minimum == target
+    Some(Cfg { div: 8, mult: 1, target: Some(256) }),     // maximum == target
+    Some(Cfg { div: 2048, mult: 2, target: Some(128) }),  // minimum < 65 for every target (0 for the small ones): no skip-ahead at all
+    Some(Cfg { div: 63, mult: 4, target: Some(8192) }),   // 4096 / 63 = 65: the smallest minimum with skip-ahead (of 0 bytes); 8192 / 63 = 130
+];
 
-fn main() {
-    let args: Vec<String> = std::env::args().collect();
-    if !(args.len() == 3 && args[1] == "--child") {
-        let exe = std::env::current_exe().unwrap();
-        let handles: Vec<_> = (0..CONFIGS.len())
-            .map(|i| {
-                let mut cmd = std::process::Command::new(&exe);
-                cmd.arg("--child").arg(i.to_string()).stdout(std::process::Stdio::piped()).stderr(std::process::Stdio::piped());
-                cmd.env_remove("HF_XET_MINIMUM_CHUNK_DIVISOR").env_remove("HF_XET_MAXIMUM_CHUNK_MULTIPLIER");
-                if let Some((d, m)) = CONFIGS[i] {
-                    cmd.env("HF_XET_MINIMUM_CHUNK_DIVISOR", d.to_string()).env("HF_XET_MAXIMUM_CHUNK_MULTIPLIER", m.to_string());
-                }
-                let c = cmd.spawn().expect("spawn child");
-                std::thread::spawn(move || c.wait_with_output())
-            })
-            .collect();
-        let mut witness: Option<String> = None;
-        for (i, h) in handles.into_iter().enumerate() {
-            let out = h.join().unwrap().expect("child output");
-            let stdout = String::from_utf8_lossy(&out.stdout).to_string();
-            match out.status.code() {
-                Some(0) => {},
-                Some(1) => witness = witness.or(stdout.lines().find(|l| l.starts_with("WITNESS")).map(|s| s.to_string())),
-                Some(2) => { eprintln!("{stdout}"); std::process::exit(2); },
-                _ => {
-                    let err = String::from_utf8_lossy(&out.stderr);
-                    let tail: Vec<&str> = err.lines().rev().take(4).collect();
-                    witness = witness.or(Some(format!("WITNESS configuration {:?} (divisor, multiplier; None = defaults): the chunker process died ({:?}): {}", CONFIGS[i], out.status, tail.into_iter().rev().collect::<Vec<_>>().join(" | "))));
-                },
+struct Env {
+    div: usize,
+    mult: usize,
+    default_config: bool,
+}
+
+/// compares one run with the expected (length, hash) list
+fn compare(e: &Env, what: &str, target: Option<usize>, tval: usize, data: &[u8], want: &[(usize, MerkleHash)], pieces: &[usize], mode: u8) {
+    let ctx = format!("[MINIMUM_CHUNK_DIVISOR={}, MAXIMUM_CHUNK_MULTIPLIER={}] {} on {what}", e.div, e.mult, match target { Some(t) => format!("Chunker::new({t})"), None => format!("Chunker::default() (TARGET_CHUNK_SIZE {tval})") });
+    let got = real(&ctx, data, target, pieces, mode);
+    let twice = mode == 2 || mode == 4;
+    let total = if twice { 2 * want.len() } else { want.len() };
+    let w = |i: usize| want[i % want.len().max(1)];
+    let (mn, mx) = (tval / e.div, tval * e.mult);
+    for i in 0..got.len().max(total) {
+        let g = got.get(i).copied();
+        let x = if i < total { Some(w(i)) } else { None };
+        if g.map(|g| g.0) != x.map(|x| x.0) {
+            witness(format!(
+                "{ctx} ({} bytes; rng seed in VERIF_SEED) fed in pieces {:?} (cycled), mode {mode} ({MODES}): chunk #{i} has length {:?} but the gear-hash rule gives {:?} ({} vs {} chunks)",
+                data.len(), &pieces[..pieces.len().min(12)], g.map(|g| g.0), x.map(|x| x.0), got.len(), total
+            ));
+        }
+        if g.map(|g| g.1) != x.map(|x| x.1) {
+            witness(format!(
+                "{ctx} ({} bytes) fed in pieces {:?} (cycled), mode {mode}: chunk #{i} ({} bytes) carries the hash {} but compute_data_hash of its bytes is {}",
+                data.len(), &pieces[..pieces.len().min(12)], g.unwrap().0, g.unwrap().1.hex(), x.unwrap().1.hex()
+            ));
+        }
+        let l = g.unwrap().0;
+        let last_of_pass = (i + 1) % want.len().max(1) == 0;
+        if l > mx || l == 0 || (!last_of_pass && l < mn.saturating_sub(64)) {
+            witness(format!("{ctx} ({} bytes), pieces {:?}, mode {mode}: chunk #{i} has {l} bytes; limits: at most {mx}, at least {mn} - 64 unless it is the last", data.len(), &pieces[..pieces.len().min(12)]));
+        }
+    }
+}
+
+fn expected(data: &[u8], target: usize, e: &Env) -> Vec<(usize, MerkleHash)> {
+    let mut pos = 0;
+    reference(data, target, e.div, e.mult).into_iter().map(|l| { let h = compute_data_hash(&data[pos..pos + l]); pos += l; (l, h) }).collect()
+}
+
+/// call partition aligned with the expected chunks: calls ending exactly at the end of the skip-ahead stretch, one byte before /
+/// after it, exactly at / one byte before / one byte after a chunk end
+fn aligned_pieces(want: &[(usize, MerkleHash)], target: usize, e: &Env) -> Vec<usize> {
+    let skip = (target / e.div).saturating_sub(65);
+    let mut ends: Vec<usize> = vec![];
+    let mut s = 0usize;
+    for (i, (l, _)) in want.iter().enumerate() {
+        match i % 6 {
+            0 => ends.push(s + skip.min(*l)),
+            1 => { ends.push(s + (skip + 1).min(*l)); ends.push(s + l); },
+            2 => { ends.push(s + l - 1); ends.push(s + l + 1); },
+            3 => ends.push(s + l),
+            4 => { ends.push(s + skip.saturating_sub(1).min(*l)); ends.push(s + skip.min(*l)); ends.push(s + (skip + 64).min(*l)); },
+            _ => {},
+        }
+        s += l;
+    }
+    ends.push(s);
+    ends.sort();
+    ends.dedup();
+    let mut pieces = vec![];
+    let mut prev = 0;
+    for x in ends {
+        if x > prev && x <= s {
+            pieces.push(x - prev);
+            prev = x;
+        }
+    }
+    if pieces.is_empty() {
+        pieces.push(1);
+    }
+    pieces
+}
+
+/// A stream made of self-delimiting blocks: F = exactly max bytes without a hash match (forced cut; random or constant bytes),
+/// E = a block whose hash match comes within the first 64 hashed bytes (so it is computed while the 64-byte window still holds
+/// whatever state the previous chunk left), N = an ordinary chunk.  Returns the stream and the block lengths.
+fn block_stream(rng: &mut StdRng, target: usize, e: &Env, budget_blocks: usize) -> Option<(Vec<u8>, Vec<usize>, String)> {
+    let (mn, mx) = (target / e.div, target * e.mult);
+    let skip = mn.saturating_sub(65);
+    let cut = |d: &[u8]| first_cut(d, target, e.div, e.mult);
+    // F: constant bytes first (cheap), random when the search is affordable
+    let mut forced: Vec<Vec<u8>> = vec![];
+    for b in 0..=255u8 {
+        let d = vec![b; mx];
+        if cut(&d) == Some((mx, false)) {
+            forced.push(d);
+            break;
+        }
+    }
+    if mx <= 1 << 18 {
+        for _ in 0..(4000usize).min((1 << 26) / mx) {
+            let mut d = vec![0u8; mx];
+            rng.fill(&mut d[..]);
+            if cut(&d) == Some((mx, false)) {
+                forced.push(d);
+                break;
             }
         }
-        match witness {
-            Some(w) => { println!("{w}"); std::process::exit(1); },
-            None => { println!("no violation found"); return; },
+    }
+    // E (the bytes before the skip-ahead end are not hashed: search over the 64 hashed bytes only, then confirm with the full rule)
+    let mut early: Vec<Vec<u8>> = vec![];
+    if mx > skip + 64 {
+        let mask0 = (target - 1) as u64;
+        let mask = mask0 << mask0.leading_zeros();
+        let mut prefix = vec![0u8; skip];
+        rng.fill(&mut prefix[..]);
+        for _ in 0..40 * target {
+            let mut tail = [0u8; 64];
+            rng.fill(&mut tail[..]);
+            let mut h = 0u64;
+            let hit = tail.iter().position(|&b| { h = (h << 1).wrapping_add(gearhash::DEFAULT_TABLE[b as usize]); h & mask == 0 });
+            if let Some(j) = hit {
+                let mut d = prefix.clone();
+                d.extend_from_slice(&tail[..=j]);
+                if cut(&d) != Some((d.len(), true)) {
+                    return None;
+                }
+                early.push(d);
+                if early.len() == 2 {
+                    break;
+                }
+            }
         }
     }
+    // N
+    let mut normal: Vec<Vec<u8>> = vec![];
+    for _ in 0..200 {
+        let mut d = vec![0u8; mx];
+        rng.fill(&mut d[..]);
+        if let Some((l, true)) = cut(&d) {
+            if l > skip + 64 {
+                d.truncate(l);
+                normal.push(d);
+                if normal.len() == 2 {
+                    break;
+                }
+            }
+        }
+    }
+    if forced.is_empty() || early.is_empty() {
+        return None;
+    }
+    let order = "FEFFEENEFNNFEEFENEEF";
+    let mut stream = vec![];
+    let mut lens = vec![];
+    let mut used = String::new();
+    let mut counts = [0usize; 3];
+    for ch in order.chars().cycle().take(budget_blocks) {
+        let (pool, k) = match ch { 'F' => (&forced, 0), 'E' => (&early, 1), _ => (&normal, 2) };
+        if pool.is_empty() {
+            continue;
+        }
+        let b = &pool[counts[k] % pool.len()];
+        counts[k] += 1;
+        stream.extend_from_slice(b);
+        lens.push(b.len());
+        used.push(ch);
+    }
+    // a tail that is not a complete chunk
+    let tail = skip.min(37).max(1);
+    stream.extend(std::iter::repeat(0xA5u8).take(tail));
+    if let Some(_) = cut(&stream[stream.len() - tail..]) {
+        stream.truncate(stream.len() - tail);
+    } else {
+        lens.push(tail);
+    }
+    Some((stream, lens, format!("blocks {used} (F = {mx} bytes without a hash match: forced cut; E = hash match within the first 64 hashed bytes, {:?} bytes; N = ordinary chunk) + {tail} trailing bytes", early.iter().map(|b| b.len()).collect::<Vec<_>>())))
+}
+
+fn child(idx: usize) -> i32 {
     let div = *deduplication::constants::MINIMUM_CHUNK_DIVISOR;
     let mult = *deduplication::constants::MAXIMUM_CHUNK_MULTIPLIER;
-    // the non-default configurations run shorter streams and skip the two slowest call patterns
-    let default_config = CONFIGS[args[2].parse::<usize>().unwrap()].is_none();
-    if let Some((d, m)) = CONFIGS[args[2].parse::<usize>().unwrap()] {
-        if (div, mult) != (d, m) {
-            println!("infrastructure: HF_XET_MINIMUM_CHUNK_DIVISOR={d} / HF_XET_MAXIMUM_CHUNK_MULTIPLIER={m} were not picked up by this build (values {div}, {mult})");
-            std::process::exit(2);
-        }
+    let tdef = *deduplication::constants::TARGET_CHUNK_SIZE;
+    let default_config = CONFIGS[idx].is_none();
+    match &CONFIGS[idx] {
+        Some(c) => {
+            if (div, mult) != (c.div, c.mult) || tdef != c.target.unwrap_or(65536) {
+                println!("infrastructure: HF_XET_MINIMUM_CHUNK_DIVISOR={} / HF_XET_MAXIMUM_CHUNK_MULTIPLIER={} / HF_XET_TARGET_CHUNK_SIZE={:?} were not picked up by this build (values {div}, {mult}, {tdef})", c.div, c.mult, c.target);
+                return 2;
+            }
+        },
+        None => {
+            if (div, mult, tdef) != (8, 2, 65536) {
+                println!("infrastructure: the defaults are not (8, 2, 65536) but ({div}, {mult}, {tdef})");
+                return 2;
+            }
+        },
     }
+    let e = Env { div, mult, default_config };
+    let t0 = std::time::Instant::now();
+    let stats = std::env::var("VERIF_STATS").is_ok();
+    let lap = |what: &str| {
+        if stats {
+            println!("STATS child {idx} (divisor {div}, multiplier {mult}): {what} at {:.1} s", t0.elapsed().as_secs_f32());
+        }
+    };
     let mut rng = StdRng::seed_from_u64(std::env::var("VERIF_SEED").ok().and_then(|s| s.parse().ok()).unwrap_or(0));
-    for &target in &[128usize, 1024, 4096, 65536] {
-        let len = (target * 200).min(if default_config { 6 << 20 } else { 2 << 20 });
+    let mut targets = vec![128usize, 1024, 4096, 65536];
+    if e.default_config {
+        targets.push(1 << 20);
+    }
+    for &target in &targets {
+        let huge = target == 1 << 20;
+        let len = if huge { 5 << 20 } else { (target * 200).min(if e.default_config { 3 << 20 } else { 2 << 20 }) };
         let mut streams: Vec<(String, Vec<u8>)> = vec![];
         let mut r = vec![0u8; len];
         rng.fill(&mut r[..]);
-        streams.push(("random".into(), r.clone()));
-        streams.push(("zeros".into(), vec![0u8; len]));
-        let mut p = r.clone();
-        for i in 0..p.len() {
-            p[i] = r[i % 97];
+        streams.push(("a random stream".into(), r.clone()));
+        streams.push(("a stream of zeros".into(), vec![0u8; len]));
+        if !huge {
+            let mut p = r.clone();
+            for i in 0..p.len() {
+                p[i] = r[i % 97];
+            }
+            streams.push(("a period-97 stream".into(), p));
+            let mut low = r.clone();
+            for b in low.iter_mut() {
+                *b &= 1;
+            }
+            streams.push(("a two-symbol stream".into(), low));
         }
-        streams.push(("period-97".into(), p));
-        let mut low = r.clone();
-        for b in low.iter_mut() {
-            *b &= 1;
-        }
-        streams.push(("two-symbol".into(), low));
-        for (name, s) in &streams {
-            let want = reference(s, target, div, mult);
-            for pieces in [vec![usize::MAX], vec![1usize], vec![4096], vec![(target / div).saturating_sub(70).max(1), 3, 1], vec![target * mult, 7], vec![8127, 1]] {
-              if !default_config && (pieces == [1] || pieces == [8127, 1]) && s.len() > 300_000 {
-                  continue;
-              }
-              for mode in 0u8..3 {
-                let got = real(s, target, &pieces, mode);
-                let want = if mode == 2 { let mut w = want.clone(); w.extend_from_slice(&want); w } else { want.clone() };
-                if got != want {
-                    let i = got.iter().zip(want.iter()).position(|(a, b)| a != b).unwrap_or(got.len().min(want.len()));
-                    println!(
-                        "WITNESS [MINIMUM_CHUNK_DIVISOR={div}, MAXIMUM_CHUNK_MULTIPLIER={mult}] Chunker(target={target}) on a {name} stream of {} bytes (rng seed in VERIF_SEED) fed in pieces {:?} (mode {mode}): chunk #{i} has length {:?} but the gear-hash rule gives {:?} ({} vs {} chunks)",
-                        s.len(), pieces, got.get(i), want.get(i), got.len(), want.len()
-                    );
-                    std::process::exit(1);
+        let budget = if huge { 6 } else { ((4 << 20) / (target * mult)).clamp(8, 60) };
+        match block_stream(&mut rng, target, &e, budget) {
+            Some((s, lens, what)) => {
+                let got = reference(&s, target, div, mult);
+                if got != lens {
+                    println!("infrastructure: the block stream for target {target} does not re-chunk block by block under the reference rule ({} vs {} chunks)", got.len(), lens.len());
+                    return 2;
                 }
-              }
+                streams.push((format!("a stream of {what}"), s));
+            },
+            None => {
+                println!("infrastructure: no forced / early-cut block found for target {target}, divisor {div}, multiplier {mult}");
+                return 2;
+            },
+        }
+        for (name, s) in &streams {
+            let want = expected(s, target, &e);
+            let aligned = aligned_pieces(&want, target, &e);
+            let skip = (target / div).saturating_sub(65);
+            // (call pattern, modes on streams up to 300,000 bytes, modes on longer streams, modes at target 2^20)
+            let all: &[u8] = &[0, 1, 2, 3, 4];
+            let patterns: Vec<(Vec<usize>, &[u8], &[u8], &[u8])> = vec![
+                (vec![usize::MAX], all, all, &[0, 1, 3]),
+                (vec![4096], all, &[0, 1], &[0]),
+                (vec![(target / div).saturating_sub(70).max(1), 3, 1], all, &[0, 3], &[]),
+                (vec![target * mult, 7], all, &[1, 4], &[1]),
+                (aligned, all, &[0, 2, 3], &[0, 3]),
+                (vec![skip.max(1), 1, 64, target * mult], all, &[0, 3], &[]),
+                (vec![target * mult + 1], all, &[1], &[1]),
+                (vec![8127, 1], all, &[0, 2], &[]),
+            ];
+            let zeros = name.contains("zeros");
+            for (k, (pieces, small, big, at_huge)) in patterns.iter().enumerate() {
+                let modes: &[u8] = if huge { if zeros && k != 0 && k != 4 { &[] } else { at_huge } } else if s.len() <= 300_000 { small } else { big };
+                for &mode in modes {
+                    compare(&e, name, Some(target), target, s, &want, pieces, mode);
+                }
+            }
+            lap(&format!("target {target}: patterns on {}", &name[..name.len().min(30)]));
+            // the one-byte call pattern on a prefix of the stream (the prefix re-chunks like the stream up to its last chunk)
+            let plen = s.len().min(if huge { 3 << 20 } else if e.default_config { 1 << 19 } else { 1 << 18 });
+            if !(huge && zeros) {
+                let p = &s[..plen];
+                let want = expected(p, target, &e);
+                let modes: &[u8] = if huge { &[0, 1] } else if plen <= 300_000 { all } else { &[0, 2, 3] };
+                for &mode in modes {
+                    compare(&e, &format!("the first {plen} bytes of {name}"), Some(target), target, p, &want, &[1], mode);
+                }
             }
         }
-        // short streams (shorter than, and just around, the skip-ahead distance), every call pattern
+        lap(&format!("target {target}: long streams done"));
+        // short streams (shorter than, and just around, the skip-ahead distance, the minimum and the maximum), every call pattern
         let min = target / div;
+        let max = target * mult;
         let mut lens: Vec<usize> = (0..70).collect();
-        for d in [min.saturating_sub(66), min.saturating_sub(65), min.saturating_sub(64), min, min + 1] {
+        for d in [min.saturating_sub(66), min.saturating_sub(65), min.saturating_sub(64), min.saturating_sub(1), min, min + 1, min + 63, min + 64, min + 65] {
             lens.push(d);
         }
+        if !huge {
+            for d in [max - 1, max, max + 1, 2 * max - 1, 2 * max, 2 * max + 1, max + min.saturating_sub(65), max + min.saturating_sub(64)] {
+                lens.push(d);
+            }
+        }
+        lens.sort();
+        lens.dedup();
         for &l in &lens {
-            let mut s = vec![0u8; l];
-            rng.fill(&mut s[..]);
-            let want = reference(&s, target, div, mult);
-            for pieces in [vec![usize::MAX], vec![1usize], vec![l.saturating_sub(1).max(1), 1]] {
-                for mode in 0u8..3 {
-                    let got = real(&s, target, &pieces, mode);
-                    let want = if mode == 2 { let mut w = want.clone(); w.extend_from_slice(&want); w } else { want.clone() };
-                    if got != want {
-                        println!(
-                            "WITNESS [MINIMUM_CHUNK_DIVISOR={div}, MAXIMUM_CHUNK_MULTIPLIER={mult}] Chunker(target={target}) on a random stream of {l} bytes fed in pieces {:?} (mode {mode}): chunk lengths {:?} but the gear-hash rule gives {:?}",
-                            pieces, got, want
-                        );
-                        std::process::exit(1);
+            for zeros in [false, true] {
+                if zeros && l < min.saturating_sub(66) {
+                    continue;
+                }
+                let mut s = vec![0u8; l];
+                if !zeros {
+                    rng.fill(&mut s[..]);
+                }
+                let want = expected(&s, target, &e);
+                let name = format!("a {} stream of {l} bytes (minimum {min}, maximum {max})", if zeros { "zero" } else { "random" });
+                for pieces in [vec![usize::MAX], vec![1usize], vec![l.saturating_sub(1).max(1), 1], vec![min.saturating_sub(65).max(1), 1], vec![max, 1]] {
+                    if pieces == [1] && l > 150_000 {
+                        continue;
+                    }
+                    let modes: &[u8] = if l > 100_000 { &[0, 1, 3] } else { &[0, 1, 2, 3, 4] };
+                    for &mode in modes {
+                        compare(&e, &name, Some(target), target, &s, &want, &pieces, mode);
                     }
                 }
             }
         }
+        lap(&format!("target {target}: short streams done"));
+        // constant streams of every byte value (gear-hash fixed points): 6 maximum chunks + 5 bytes
+        if target <= 4096 {
+            for b in 0..=255u8 {
+                let s = vec![b; 6 * max + 5];
+                let want = expected(&s, target, &e);
+                for (pieces, mode) in [(vec![usize::MAX], 1u8), (vec![61], 0), (vec![max, 1], 3)] {
+                    compare(&e, &format!("a stream of {} bytes of value {b:#04x}", s.len()), Some(target), target, &s, &want, &pieces, mode);
+                }
+            }
+        }
+    }
+    lap("targets done");
+    // Chunker::default() == Chunker::new(TARGET_CHUNK_SIZE)
+    {
+        let len = (tdef * 40).min(3 << 20);
+        let mut s = vec![0u8; len];
+        rng.fill(&mut s[..]);
+        let want = expected(&s, tdef, &e);
+        for (pieces, mode) in [(vec![usize::MAX], 0u8), (vec![usize::MAX], 1), (vec![4096], 2), (vec![8127, 1], 3), (vec![tdef * mult, 7], 4)] {
+            compare(&e, "a random stream", None, tdef, &s, &want, &pieces, mode);
+        }
+    }
+    0
+}
+
+fn main() {
+    let args: Vec<String> = std::env::args().collect();
+    if args.len() == 3 && args[1] == "--child" {
+        std::process::exit(child(args[2].parse().unwrap()));
+    }
+    let exe = std::env::current_exe().unwrap();
+    const VARS: [&str; 3] = ["HF_XET_MINIMUM_CHUNK_DIVISOR", "HF_XET_MAXIMUM_CHUNK_MULTIPLIER", "HF_XET_TARGET_CHUNK_SIZE"];
+    let handles: Vec<_> = (0..CONFIGS.len())
+        .map(|i| {
+            let mut cmd = std::process::Command::new(&exe);
+            cmd.arg("--child").arg(i.to_string()).stdout(std::process::Stdio::piped()).stderr(std::process::Stdio::piped());
+            for v in VARS {
+                cmd.env_remove(v);
+            }
+            if let Some(c) = &CONFIGS[i] {
+                cmd.env(VARS[0], c.div.to_string()).env(VARS[1], c.mult.to_string());
+                if let Some(t) = c.target {
+                    cmd.env(VARS[2], t.to_string());
+                }
+            }
+            let c = cmd.spawn().expect("spawn child");
+            std::thread::spawn(move || c.wait_with_output())
+        })
+        .collect();
+    let mut witness: Option<String> = None;
+    let mut trouble: Option<String> = None;
+    for (i, h) in handles.into_iter().enumerate() {
+        let out = h.join().unwrap().expect("child output");
+        let stdout = String::from_utf8_lossy(&out.stdout).to_string();
+        stdout.lines().filter(|l| l.starts_with("STATS")).for_each(|l| println!("{l}"));
+        match out.status.code() {
+            Some(0) => {},
+            Some(1) => witness = witness.or(stdout.lines().find(|l| l.starts_with("WITNESS")).map(|s| s.to_string())),
+            Some(2) => trouble = trouble.or(Some(stdout)),
+            _ => {
+                let err = String::from_utf8_lossy(&out.stderr);
+                let tail: Vec<&str> = err.lines().rev().take(4).collect();
+                let cfg = CONFIGS[i].as_ref().map(|c| format!("divisor {}, multiplier {}, TARGET_CHUNK_SIZE {:?}", c.div, c.mult, c.target)).unwrap_or("defaults".into());
+                witness = witness.or(Some(format!("WITNESS configuration {cfg}: the chunker process died ({:?}): {}", out.status, tail.into_iter().rev().collect::<Vec<_>>().join(" | "))));
+            },
+        }
+    }
+    if let Some(w) = witness {
+        println!("{w}");
+        std::process::exit(1);
+    }
+    if let Some(t) = trouble {
+        eprintln!("{t}");
+        std::process::exit(2);
     }
     println!("no violation found");
 }
